@@ -16,6 +16,7 @@ pub fn tpl(name: &str) -> String {
         "MnC" => "{msg}\n{pos}/{len}",
         "LM" => "ab{msg}",
         "TM" => "a\tb{msg}",
+        "TT" => "a\t{pos}\tb",
         "TB" => "{msg}\t{ z\t}",     // a tab next to a brace that stands for itself: the parser sees several literal pieces in a row
         "C" => "{pos}/{len}",
         "MC" => "{msg}{pos}",
@@ -71,6 +72,8 @@ pub struct World {
     pub styles: BTreeMap<String, ProgressStyle>,
     /// the process's own stdout / stderr were replaced (by a pipe or by the slave side of a pty): targets `stderr_*`, `stdout_*`, `default_*`
     pub std_redirected: bool,
+    /// a second, hidden MultiProgress (bars can be moved into it)
+    pub mp2: Option<MultiProgress>,
 }
 
 /// Is this target name one of the process's own streams (`ProgressDrawTarget::stderr()`, `stdout()`, or the default target of
@@ -219,7 +222,7 @@ impl World {
     pub fn new(cfg: &Value) -> World {
         let w = cfg["w"].as_u64().unwrap_or(80) as u16;
         let h = cfg["h"].as_u64().unwrap_or(24) as u16;
-        let mut world = World { spy: Spy::new(w, h), mp: None, bars: BTreeMap::new(), pipe_r: None, weak: BTreeMap::new(), pty_master: None, styles: BTreeMap::new(), std_redirected: false };
+        let mut world = World { spy: Spy::new(w, h), mp: None, bars: BTreeMap::new(), pipe_r: None, weak: BTreeMap::new(), pty_master: None, styles: BTreeMap::new(), std_redirected: false, mp2: None };
         if let Some(m) = cfg.get("mp").and_then(|m| m.as_object()) {
             let t = m.get("target").and_then(|x| x.as_str()).unwrap_or("spy").to_string();
             let hz = m.get("hz").and_then(|x| x.as_u64()).unwrap_or(0);
@@ -261,7 +264,11 @@ fn make_bar(world: &mut World, op: &Value) -> ProgressBar {
     let mut pb = if op["op"] == "new" && matches!(std_target(&t), Some(("default", _))) {
         // the constructors that pick the target themselves (stderr): new, new_spinner, no_length
         let _ = world.target(&t, hz);
-        match len { Some(l) => ProgressBar::new(l), None => if op.get("b").and_then(|x| x.as_i64()).unwrap_or(0) % 2 == 1 { ProgressBar::new_spinner() } else { ProgressBar::no_length() } }
+        // bars the iterator adaptors create themselves: `.progress_count(len)` / `.progress()` (the handle is the adaptor's public `progress` field)
+        let via = op.get("via").and_then(|x| x.as_str()).unwrap_or("");
+        if via == "progress_count" { use indicatif::ProgressIterator; (0..0u64).progress_count(len.unwrap_or(0)).progress.clone() }
+        else if via == "progress" { use indicatif::ProgressIterator; (0..(len.unwrap_or(0).min(1 << 20) as usize)).progress().progress.clone() }
+        else { match len { Some(l) => ProgressBar::new(l), None => if op.get("b").and_then(|x| x.as_i64()).unwrap_or(0) % 2 == 1 { ProgressBar::new_spinner() } else { ProgressBar::no_length() } } }
     } else {
         let tgt = if op["op"] == "new" { world.target(&t, hz) } else { ProgressDrawTarget::hidden() };
         ProgressBar::with_draw_target(len, tgt)
@@ -334,6 +341,9 @@ pub fn exec(world: &mut World, op: &Value) -> String {
         "abandon_with_message" => pb!().abandon_with_message(m()),
         "finish_using_style" => pb!().finish_using_style(),
         "force_draw" => pb!().force_draw(),
+        "fburst" => { let p = pb!(); for _ in 0..n { p.force_draw(); } }
+        // the bar is added to another MultiProgress, one that draws to a hidden target
+        "to_hidden_mp" => { let p = pb!(); if world.mp2.is_none() { world.mp2 = Some(MultiProgress::with_draw_target(ProgressDrawTarget::hidden())); } let _ = world.mp2.as_ref().unwrap().add(p); }
         "update_pos" => { pb!().update(|s| s.set_pos(n)); }
         "update_len" => { pb!().update(|s| s.set_len(n)); }
         "println" => pb!().println(m()),
